@@ -698,7 +698,11 @@ def worker(job):
         else:
             out['functions']['lua'] = len(fe.functions_encoded)
             root = spec.root()
-            for sh in shapes_for(tier, count_alts(spec, root)):
+            from .pspec import has_nested_lists
+            lshapes = shapes_for(tier, count_alts(spec, root))
+            if has_nested_lists(spec, root):
+                lshapes = lshapes + [Shape(1, 2, 0, sl) for sl in Shape.RAGGED] + ([Shape(2, 3, 0, sl) for sl in Shape.RAGGED] if tier == 'thorough' else [])
+            for sh in lshapes:
                 out['cells'] += 1
                 try:
                     out['findings'].extend(f.as_dict() | {'sig': sig(f)} for f in run_c15(fe, spec, root, sh, stats))
@@ -762,6 +766,9 @@ def worker(job):
                 shapes = shapes + [Shape(n, 1, a) for n in big for a in range(max(1, nal))]
         if prop in ('C01', 'C02', 'C03'):
             shapes = shapes + long_shapes(spec, pk, tier)
+        from .pspec import has_nested_lists
+        if prop in ('C01', 'C02', 'C03') and has_nested_lists(spec, pk):
+            shapes = shapes + [Shape(1, 2, a, sl) for sl in Shape.RAGGED for a in range(max(1, nal))] + ([Shape(2, 3, 0, sl) for sl in Shape.RAGGED] if tier == 'thorough' else [])
         for sh in shapes:
             core.LOOP_BOUND[0] = 300 if (isinstance(sh.k, int) and sh.k > 64) else 64
             if prop == 'C03':
